@@ -12,6 +12,7 @@ import (
 	"strconv"
 	"strings"
 
+	"github.com/HobbyOSs/gosk/pkg/asmdb"
 	"github.com/HobbyOSs/gosk/pkg/cpu"
 	"github.com/HobbyOSs/gosk/pkg/ng_operand"
 	"github.com/HobbyOSs/gosk/pkg/ocode"
@@ -648,9 +649,9 @@ func specRegNum(s string) int {
 
 //@ func GetRegisterNumber
 //@ props C01 C02
-//@ requires regName == "" || specIsRegName(regName)
 //@ ensures[num]    specRegNum(regName) >= 0 ==> result1 == nil && result0 == specRegNum(regName)
-//@ ensures[reject] specRegNum(regName) < 0 ==> result1 != nil
+//@ ensures[reject] (regName == "" || specIsRegName(regName)) && specRegNum(regName) < 0 ==> result1 != nil
+//@ ensures[range]  0 <= result0 && result0 <= 7
 
 
 // ---------------------------------------------------------------------------
@@ -706,6 +707,12 @@ func specInOutBytes(out []byte, acc, port string, opAL8, opWide8, opALdx, opWide
 // specIsMemText: the test the ModR/M builders use to tell a memory operand from a register name.
 func specIsMemText(s string) bool { return strings.Contains(s, "[") && strings.HasSuffix(s, "]") }
 
+// specOperandPairOK: the operand texts the ModR/M builders are meant for (assumptions A2, A16): a
+// register name or nothing for the reg field, a register name or memory text for r/m, no 64-bit names.
+func specOperandPairOK(regOperand, rmOperand string) bool {
+	return (regOperand == "" || specIsRegName(regOperand)) && (specIsMemText(rmOperand) || rmOperand == "" || specIsRegName(rmOperand)) && !specReg64Name(regOperand) && !specReg64Name(rmOperand)
+}
+
 // specAddrFormHandled: the address registers form a 16- or 32-bit address and are not 16-bit
 // registers in 32-bit mode (outside this the encoder is wrong already: findings C02-nonaddr-regs,
 // C02-r16-in-sib on calculateModRM).
@@ -732,27 +739,24 @@ func specModRMLayout(out []byte, modrm byte, hasSib bool, sib byte, disp []byte)
 //@ func ModRMByOperand
 //@ props C01 C13
 //@ requires bitMode == cpu.MODE_16BIT || bitMode == cpu.MODE_32BIT
-//@ requires[A16] !specReg64Name(regOperand) && !specReg64Name(rmOperand)
-//@ requires (regOperand == "" || specIsRegName(regOperand)) && (specIsMemText(rmOperand) || rmOperand == "" || specIsRegName(rmOperand))
-//@ ensures[regreg] !specIsMemText(rmOperand) && result1 == nil ==> len(result0) == 1 && specRegNum(regOperand) >= 0 && specRegNum(rmOperand) >= 0 && result0[0] == 0xC0|byte(specRegNum(regOperand))<<3|byte(specRegNum(rmOperand))
-//@ ensures[regreg.err] !specIsMemText(rmOperand) && (specRegNum(regOperand) < 0 || specRegNum(rmOperand) < 0) ==> result1 != nil
-//@ ensures[mem.reg] specIsMemText(rmOperand) && result1 == nil ==> len(result0) >= 1 && specRegNum(regOperand) >= 0 && result0[0]&0x38 == byte(specRegNum(regOperand))<<3
-//@ ensures[mem.layout@C01+C02+C03] specIsMemText(rmOperand) && result1 == nil ==> vcCalled("calculateModRM") && (specAddrFormHandled(vcResult[*ng_operand.MemoryInfo]("GetMemoryInfo", 0), specMode(bitMode)) ==> specModRMLayout(result0, vcResult[byte]("calculateModRM", 0), specHasSIB(specAddrSize(vcResult[*ng_operand.MemoryInfo]("GetMemoryInfo", 0), specMode(bitMode)), vcResult[byte]("calculateModRM", 0)), vcResult[byte]("calculateModRM", 1), vcResult[[]byte]("calculateModRM", 2)))
+//@ ensures[regreg] specOperandPairOK(regOperand, rmOperand) && !specIsMemText(rmOperand) && result1 == nil ==> len(result0) == 1 && specRegNum(regOperand) >= 0 && specRegNum(rmOperand) >= 0 && result0[0] == 0xC0|byte(specRegNum(regOperand))<<3|byte(specRegNum(rmOperand))
+//@ ensures[regreg.err] specOperandPairOK(regOperand, rmOperand) && !specIsMemText(rmOperand) && (specRegNum(regOperand) < 0 || specRegNum(rmOperand) < 0) ==> result1 != nil
+//@ ensures[len] result1 == nil ==> 1 <= len(result0) && len(result0) <= 6
+//@ ensures[mem.reg] specOperandPairOK(regOperand, rmOperand) && specIsMemText(rmOperand) && result1 == nil ==> len(result0) >= 1 && specRegNum(regOperand) >= 0 && result0[0]&0x38 == byte(specRegNum(regOperand))<<3
+//@ ensures[mem.layout@C01+C02+C03] specOperandPairOK(regOperand, rmOperand) && specIsMemText(rmOperand) && result1 == nil ==> vcCalled("calculateModRM") && (specAddrFormHandled(vcResult[*ng_operand.MemoryInfo]("GetMemoryInfo", 0), specMode(bitMode)) ==> specModRMLayout(result0, vcResult[byte]("calculateModRM", 0), specHasSIB(specAddrSize(vcResult[*ng_operand.MemoryInfo]("GetMemoryInfo", 0), specMode(bitMode)), vcResult[byte]("calculateModRM", 0)), vcResult[byte]("calculateModRM", 1), vcResult[[]byte]("calculateModRM", 2)))
 //@ assigns OperandPegImpl.bitMode, OperandType[]
 
 //@ func ModRMByValue
 //@ props C01 C13
 //@ requires bitMode == cpu.MODE_16BIT || bitMode == cpu.MODE_32BIT
 //@ requires 0 <= regValue && regValue <= 7
-//@ requires[A16] !specReg64Name(rmOperand)
-//@ requires specIsMemText(rmOperand) || rmOperand == "" || specIsRegName(rmOperand)
-//@ ensures[regdigit] !specIsMemText(rmOperand) && specRegNum(rmOperand) >= 0 ==> len(result0) == 1 && result0[0] == 0xC0|byte(regValue)<<3|byte(specRegNum(rmOperand))
-//@ ensures[mem.layout@C01+C02+C03] specIsMemText(rmOperand) && vcCalled("calculateModRM") && vcResult[error]("calculateModRM", 3) == nil && specAddrFormHandled(vcResult[*ng_operand.MemoryInfo]("GetMemoryInfo", 0), specMode(bitMode)) ==> specModRMLayout(result0, vcResult[byte]("calculateModRM", 0), specHasSIB(specAddrSize(vcResult[*ng_operand.MemoryInfo]("GetMemoryInfo", 0), specMode(bitMode)), vcResult[byte]("calculateModRM", 0)), vcResult[byte]("calculateModRM", 1), vcResult[[]byte]("calculateModRM", 2))
+//@ ensures[len] 1 <= len(result0) && len(result0) <= 6
+//@ ensures[regdigit] specOperandPairOK("", rmOperand) && !specIsMemText(rmOperand) && specRegNum(rmOperand) >= 0 ==> len(result0) == 1 && result0[0] == 0xC0|byte(regValue)<<3|byte(specRegNum(rmOperand))
+//@ ensures[mem.layout@C01+C02+C03] specOperandPairOK("", rmOperand) && specIsMemText(rmOperand) && vcCalled("calculateModRM") && vcResult[error]("calculateModRM", 3) == nil && specAddrFormHandled(vcResult[*ng_operand.MemoryInfo]("GetMemoryInfo", 0), specMode(bitMode)) ==> specModRMLayout(result0, vcResult[byte]("calculateModRM", 0), specHasSIB(specAddrSize(vcResult[*ng_operand.MemoryInfo]("GetMemoryInfo", 0), specMode(bitMode)), vcResult[byte]("calculateModRM", 0)), vcResult[byte]("calculateModRM", 1), vcResult[[]byte]("calculateModRM", 2))
 //@ assigns OperandPegImpl.bitMode, OperandType[]
 
 //@ func registerToPushPopCode
 //@ props C01 C18
-//@ requires reg == "" || specIsRegName(reg)
 //@ ensures[num]    specReg16(reg) >= 0 || specReg32(reg) >= 0 ==> result1 && int(result0) == specRegNum(reg)
 //@ ensures[reject] specReg8(reg) >= 0 || specSreg(reg) >= 0 || specCreg(reg) >= 0 ==> !result1
 
@@ -809,7 +813,6 @@ func specHexOKAt(s string, k int) bool {
 
 //@ func ResolveOpcode
 //@ props C01 C03
-//@ requires len(op.Byte) <= 64
 //@ loop 0 invariant[i] 0 <= i && i&1 == 0 && i <= len(opStr) && len(opStr)&1 == 0 && 2*len(opBytes) == i
 //@ loop 0 invariant[bytes] forall(0, len(opBytes), func(k int) bool { return opBytes[k] == byte(specHexAt(opStr, k)) && specHexOKAt(opStr, k) })
 //@ ensures[len@C01+C03] result1 == nil ==> 2*len(result0) == len(op.Byte)
@@ -818,6 +821,309 @@ func specHexOKAt(s string, k int) bool {
 //@ ensures[bytes] result1 == nil ==> forall(0, len(result0)-1, func(k int) bool { return result0[k] == byte(specHexAt(op.Byte, k)) })
 //@ ensures[last.plain] result1 == nil && len(result0) > 0 && op.Addend == nil ==> result0[len(result0)-1] == byte(specHexAt(op.Byte, len(result0)-1))
 //@ ensures[last.plusr] result1 == nil && len(result0) > 0 && op.Addend != nil && 0 <= regNum && regNum <= 7 && specHexAt(op.Byte, len(result0)-1)&7 == 0 ==> int(result0[len(result0)-1]) == specHexAt(op.Byte, len(result0)-1)+regNum
+
+// ---------------------------------------------------------------------------
+// Instruction handlers (C01): the bytes of an instruction are, in this order and nothing else,
+// [66h] [67h] opcode [ModR/M SIB disp] [immediate] - the prefixes as the operand rules decide
+// (Require66h/Require67h, under contract in ng_operand), the opcode bytes ResolveOpcode made of
+// the chosen table row, the ModR/M part GenerateModRM made of the same row and operands, and the
+// immediate getImmediateValue made of the operand the row names, in the size the row gives.
+// The clauses speak about the calls the handler makes (ghost call log: vcCalled/vcArg/vcResult).
+// ---------------------------------------------------------------------------
+
+var _ asmdb.Encoding
+
+func specB2I(b bool) int {
+	if b {
+		return 1
+	}
+	return 0
+}
+
+// specPartAt: out carries the bytes of part (at most six) from offset off on.
+func specPartAt(out []byte, off int, part []byte) bool {
+	return off >= 0 && len(part) <= 6 && off+len(part) <= len(out) &&
+		(len(part) < 1 || out[off] == part[0]) && (len(part) < 2 || out[off+1] == part[1]) && (len(part) < 3 || out[off+2] == part[2]) &&
+		(len(part) < 4 || out[off+3] == part[3]) && (len(part) < 5 || out[off+4] == part[4]) && (len(part) < 6 || out[off+5] == part[5])
+}
+
+// specPrefixOK: the n leading bytes of out (n = number of prefixes needed) are exactly the needed
+// prefixes 66h / 67h, each once, in either order (the order of prefixes has no meaning).
+func specPrefixOK(out []byte, p66, p67 bool) bool {
+	switch {
+	case p66 && p67:
+		return len(out) >= 2 && (out[0] == 0x66 && out[1] == 0x67 || out[0] == 0x67 && out[1] == 0x66)
+	case p66:
+		return len(out) >= 1 && out[0] == 0x66
+	case p67:
+		return len(out) >= 1 && out[0] == 0x67
+	}
+	return true
+}
+
+// specLenIf: len(part) if present, else 0.
+func specLenIf(present bool, part []byte) int {
+	if present {
+		return len(part)
+	}
+	return 0
+}
+
+// specIndex: the operand index a table row writes as "#n" (or "n").
+func specIndex(s string) int {
+	if strings.HasPrefix(s, "#") {
+		s = s[1:]
+	}
+	v, _ := strconv.Atoi(s)
+	return v
+}
+
+func specIndexOK(s string) bool {
+	if strings.HasPrefix(s, "#") {
+		s = s[1:]
+	}
+	_, err := strconv.Atoi(s)
+	return err == nil
+}
+
+func specAtoiOK(s string) bool {
+	_, err := strconv.Atoi(s)
+	return err == nil
+}
+
+// GenerateModRM routes the operands a table row names ("#i") to the ModR/M builders: the reg
+// field gets operand Reg (or the opcode-extension digit), the r/m field operand Rm.
+
+//@ func GenerateModRM
+//@ props C01 C02
+//@ requires bitMode == cpu.MODE_16BIT || bitMode == cpu.MODE_32BIT
+//@ requires[A3] asmdb.SpecRowOK(modRM)
+//@ ensures[none] modRM == nil || modRM.ModRM == nil ==> result1 == nil && len(result0) == 0
+//@ calls[operand] ModRMByOperand : arg0 == modRM.ModRM.Mode && arg1 == operands[specIndex(modRM.ModRM.Reg)] && arg2 == operands[specIndex(modRM.ModRM.Rm)] && arg3 == bitMode
+//@ calls[value] ModRMByValue : arg1 == specAtoi(modRM.ModRM.Reg) && arg2 == operands[specIndex(modRM.ModRM.Rm)] && arg3 == bitMode
+//@ ensures[len] result1 == nil ==> len(result0) <= 6
+//@ ensures[route.operand] modRM != nil && modRM.ModRM != nil && strings.HasPrefix(modRM.ModRM.Reg, "#") && result1 == nil ==> vcCalled("ModRMByOperand") && vcSame(result0, vcResult[[]byte]("ModRMByOperand", 0))
+//@ ensures[route.value] modRM != nil && modRM.ModRM != nil && !strings.HasPrefix(modRM.ModRM.Reg, "#") && result1 == nil ==> vcCalled("ModRMByValue") && vcSame(result0, vcResult[[]byte]("ModRMByValue", 0))
+//@ ensures[index] modRM != nil && modRM.ModRM != nil && result1 == nil ==> 0 <= specIndex(modRM.ModRM.Rm) && specIndex(modRM.ModRM.Rm) < len(operands) && (strings.HasPrefix(modRM.ModRM.Reg, "#") ==> 0 <= specIndex(modRM.ModRM.Reg) && specIndex(modRM.ModRM.Reg) < len(operands))
+//@ ensures[regreg] modRM != nil && modRM.ModRM != nil && strings.HasPrefix(modRM.ModRM.Reg, "#") && result1 == nil && specOperandPairOK(operands[specIndex(modRM.ModRM.Reg)], operands[specIndex(modRM.ModRM.Rm)]) && !specIsMemText(operands[specIndex(modRM.ModRM.Rm)]) ==> len(result0) == 1 && result0[0] == 0xC0|byte(specRegNum(operands[specIndex(modRM.ModRM.Reg)]))<<3|byte(specRegNum(operands[specIndex(modRM.ModRM.Rm)]))
+//@ ensures[regdigit] modRM != nil && modRM.ModRM != nil && !strings.HasPrefix(modRM.ModRM.Reg, "#") && result1 == nil && specOperandPairOK("", operands[specIndex(modRM.ModRM.Rm)]) && !specIsMemText(operands[specIndex(modRM.ModRM.Rm)]) && specRegNum(operands[specIndex(modRM.ModRM.Rm)]) >= 0 ==> len(result0) == 1 && result0[0] == 0xC0|byte(specAtoi(modRM.ModRM.Reg))<<3|byte(specRegNum(operands[specIndex(modRM.ModRM.Rm)]))
+//@ ensures[mem.reg] modRM != nil && modRM.ModRM != nil && strings.HasPrefix(modRM.ModRM.Reg, "#") && result1 == nil && specOperandPairOK(operands[specIndex(modRM.ModRM.Reg)], operands[specIndex(modRM.ModRM.Rm)]) && specIsMemText(operands[specIndex(modRM.ModRM.Rm)]) ==> len(result0) >= 1 && result0[0]&0x38 == byte(specRegNum(operands[specIndex(modRM.ModRM.Reg)]))<<3
+//@ assigns OperandPegImpl.bitMode, OperandType[]
+
+//@ func generateArithmeticCode
+//@ props C01 C03
+//@ option no-panic-obligations unroll-appends
+//@ requires ctx != nil && (ctx.BitMode == cpu.MODE_16BIT || ctx.BitMode == cpu.MODE_32BIT)
+//@ calls[mode] (*ng_operand.OperandPegImpl).WithBitMode : arg1 == ctx.BitMode
+//@ calls[row] (*asmdb.InstructionDB).FindEncoding : arg1 == instName && arg3
+//@ calls[opcode] ResolveOpcode : arg0.Byte == vcResult[*asmdb.Encoding]("FindEncoding", 0).Opcode.Byte && arg0.Addend == vcResult[*asmdb.Encoding]("FindEncoding", 0).Opcode.Addend
+//@ calls[modrm] getModRMFromOperands : vcSame(arg0, operands) && arg1 == vcResult[*asmdb.Encoding]("FindEncoding", 0) && arg2 == ctx.BitMode
+//@ calls[imm] getImmediateValue : arg1 == vcResult[*asmdb.Encoding]("FindEncoding", 0).Immediate.Size && arg0 == operands[specIndex(vcResult[*asmdb.Encoding]("FindEncoding", 0).Immediate.Value)]
+//@ calls[plusr] ResolveOpcode : vcResult[*asmdb.Encoding]("FindEncoding", 0).Opcode.Addend != nil ==> vcCalled("GetRegisterNumber") && arg1 == vcResult[int]("GetRegisterNumber", 0) && vcArg[string]("GetRegisterNumber", 0) == operands[specAtoi(strings.TrimPrefix(*vcResult[*asmdb.Encoding]("FindEncoding", 0).Opcode.Addend, "#"))]
+//@ ensures[parts.modrm] result1 == nil ==> vcCalled("getModRMFromOperands") == (vcResult[*asmdb.Encoding]("FindEncoding", 0).ModRM != nil)
+//@ ensures[parts.imm] result1 == nil ==> vcCalled("getImmediateValue") == (vcResult[*asmdb.Encoding]("FindEncoding", 0).Immediate != nil)
+//@ ensures[layout.len@C01+C03] result1 == nil ==> len(result0) == specB2I(vcResult[bool]("Require66h", 0))+specB2I(vcResult[bool]("Require67h", 0))+len(vcResult[[]byte]("ResolveOpcode", 0))+specLenIf(vcCalled("getModRMFromOperands"), vcResult[[]byte]("getModRMFromOperands", 0))+specLenIf(vcCalled("getImmediateValue"), vcResult[[]byte]("getImmediateValue", 0))
+//@ ensures[layout.prefix] result1 == nil ==> specPrefixOK(result0, vcResult[bool]("Require66h", 0), vcResult[bool]("Require67h", 0))
+//@ ensures[layout.opcode] result1 == nil ==> specPartAt(result0, specB2I(vcResult[bool]("Require66h", 0))+specB2I(vcResult[bool]("Require67h", 0)), vcResult[[]byte]("ResolveOpcode", 0))
+//@ ensures[layout.modrm] result1 == nil && vcCalled("getModRMFromOperands") ==> specPartAt(result0, specB2I(vcResult[bool]("Require66h", 0))+specB2I(vcResult[bool]("Require67h", 0))+len(vcResult[[]byte]("ResolveOpcode", 0)), vcResult[[]byte]("getModRMFromOperands", 0))
+//@ ensures[layout.imm] result1 == nil && vcCalled("getImmediateValue") ==> specPartAt(result0, len(result0)-len(vcResult[[]byte]("getImmediateValue", 0)), vcResult[[]byte]("getImmediateValue", 0))
+//@ assigns OperandPegImpl.bitMode, OperandType[]
+
+//@ func generateLogicalCode
+//@ props C01 C03
+//@ option no-panic-obligations unroll-appends
+//@ requires ctx != nil && (ctx.BitMode == cpu.MODE_16BIT || ctx.BitMode == cpu.MODE_32BIT)
+//@ calls[mode] (*ng_operand.OperandPegImpl).WithBitMode : arg1 == ctx.BitMode
+//@ calls[row] (*asmdb.InstructionDB).FindEncoding : arg1 == instName && arg3
+//@ calls[opcode] ResolveOpcode : arg0.Byte == vcResult[*asmdb.Encoding]("FindEncoding", 0).Opcode.Byte && arg0.Addend == vcResult[*asmdb.Encoding]("FindEncoding", 0).Opcode.Addend
+//@ calls[modrm] getModRMFromOperands : vcSame(arg0, operands) && arg1 == vcResult[*asmdb.Encoding]("FindEncoding", 0) && arg2 == ctx.BitMode
+//@ calls[imm] getImmediateValue : arg1 == vcResult[*asmdb.Encoding]("FindEncoding", 0).Immediate.Size && arg0 == operands[specIndex(vcResult[*asmdb.Encoding]("FindEncoding", 0).Immediate.Value)]
+//@ calls[plusr] ResolveOpcode : vcResult[*asmdb.Encoding]("FindEncoding", 0).Opcode.Addend != nil && vcCalled("GetRegisterNumber") && vcResult[error]("GetRegisterNumber", 1) == nil ==> arg1 == vcResult[int]("GetRegisterNumber", 0) && vcArg[string]("GetRegisterNumber", 0) == operands[specAtoi(strings.TrimPrefix(*vcResult[*asmdb.Encoding]("FindEncoding", 0).Opcode.Addend, "#"))]
+//@ ensures[parts.modrm] result1 == nil ==> vcCalled("getModRMFromOperands") == (vcResult[*asmdb.Encoding]("FindEncoding", 0).ModRM != nil)
+//@ ensures[parts.imm] result1 == nil ==> vcCalled("getImmediateValue") == (vcResult[*asmdb.Encoding]("FindEncoding", 0).Immediate != nil)
+//@ ensures[layout.len@C01+C03] result1 == nil ==> len(result0) == specB2I(vcResult[bool]("Require66h", 0))+specB2I(vcResult[bool]("Require67h", 0))+len(vcResult[[]byte]("ResolveOpcode", 0))+specLenIf(vcCalled("getModRMFromOperands"), vcResult[[]byte]("getModRMFromOperands", 0))+specLenIf(vcCalled("getImmediateValue"), vcResult[[]byte]("getImmediateValue", 0))
+//@ ensures[layout.prefix] result1 == nil ==> specPrefixOK(result0, vcResult[bool]("Require66h", 0), vcResult[bool]("Require67h", 0))
+//@ ensures[layout.opcode] result1 == nil ==> specPartAt(result0, specB2I(vcResult[bool]("Require66h", 0))+specB2I(vcResult[bool]("Require67h", 0)), vcResult[[]byte]("ResolveOpcode", 0))
+//@ ensures[layout.modrm] result1 == nil && vcCalled("getModRMFromOperands") ==> specPartAt(result0, specB2I(vcResult[bool]("Require66h", 0))+specB2I(vcResult[bool]("Require67h", 0))+len(vcResult[[]byte]("ResolveOpcode", 0)), vcResult[[]byte]("getModRMFromOperands", 0))
+//@ ensures[layout.imm] result1 == nil && vcCalled("getImmediateValue") ==> specPartAt(result0, len(result0)-len(vcResult[[]byte]("getImmediateValue", 0)), vcResult[[]byte]("getImmediateValue", 0))
+//@ assigns OperandPegImpl.bitMode, OperandType[]
+
+// MOV: [67h] [66h, not for moves to/from control registers: their operand size is always 32 bits]
+// opcode, then the ModR/M part or - for the moffs forms, which have none - the address as a
+// mode-sized offset, then the immediate: the value of the operand the row names, or the address of
+// the label it names, little-endian in the row's size. A failed MOV returns nil.
+
+// specSymImm: the operand names a label of the symbol table (its address is the immediate).
+func specSymImm(tab map[string]int32, op string) bool {
+	_, ok := tab[op]
+	return ok
+}
+
+// specLE: b is the little-endian form of the low 8*len(b) bits of v, for 1, 2 or 4 bytes.
+func specLE(b []byte, v int32) bool {
+	switch len(b) {
+	case 1:
+		return b[0] == byte(v)
+	case 2:
+		return b[0] == byte(v) && b[1] == byte(v>>8)
+	case 4:
+		return b[0] == byte(v) && b[1] == byte(v>>8) && b[2] == byte(v>>16) && b[3] == byte(v>>24)
+	}
+	return false
+}
+
+//@ func handleMOV
+//@ props C01 C03
+//@ option no-panic-obligations unroll-appends
+//@ requires ctx != nil && (ctx.BitMode == cpu.MODE_16BIT || ctx.BitMode == cpu.MODE_32BIT)
+//@ calls[mode] (*ng_operand.OperandPegImpl).WithBitMode : arg1 == ctx.BitMode
+//@ calls[opcode] ResolveOpcode : arg0.Byte == vcResult[*asmdb.Encoding]("FindEncoding", 0).Opcode.Byte && arg0.Addend == vcResult[*asmdb.Encoding]("FindEncoding", 0).Opcode.Addend
+//@ calls[plusr] ResolveOpcode : vcResult[*asmdb.Encoding]("FindEncoding", 0).Opcode.Addend != nil ==> vcCalled("GetRegisterNumber") && arg1 == vcResult[int]("GetRegisterNumber", 0) && vcArg[string]("GetRegisterNumber", 0) == operands[specAtoi(strings.TrimPrefix(*vcResult[*asmdb.Encoding]("FindEncoding", 0).Opcode.Addend, "#"))]
+//@ calls[modrm] getModRMFromOperands : vcSame(arg0, operands) && arg1 == vcResult[*asmdb.Encoding]("FindEncoding", 0) && arg2 == ctx.BitMode
+//@ calls[imm] getImmediateValue : arg1 == vcResult[*asmdb.Encoding]("FindEncoding", 0).Immediate.Size && arg0 == operands[specIndex(vcResult[*asmdb.Encoding]("FindEncoding", 0).Immediate.Value)]
+//@ ensures[parts.modrm] result0 != nil ==> vcCalled("getModRMFromOperands") == (vcResult[*asmdb.Encoding]("FindEncoding", 0).ModRM != nil) && vcCalled("DisplacementBytes") == (vcResult[*asmdb.Encoding]("FindEncoding", 0).ModRM == nil)
+//@ ensures[parts.imm] result0 != nil ==> vcCalled("getImmediateValue") == (vcResult[*asmdb.Encoding]("FindEncoding", 0).Immediate != nil && !specSymImm(ctx.SymTable, operands[specIndex(vcResult[*asmdb.Encoding]("FindEncoding", 0).Immediate.Value)]))
+//@ ensures[layout.len@C01+C03] result0 != nil && vcResult[*asmdb.Encoding]("FindEncoding", 0).Immediate == nil ==> len(result0) == specB2I((vcResult[bool]("Require66h", 0) && !vcResult[bool]("IsControlRegisterOperation", 0)))+specB2I(vcResult[bool]("Require67h", 0))+len(vcResult[[]byte]("ResolveOpcode", 0))+specLenIf(vcCalled("getModRMFromOperands"), vcResult[[]byte]("getModRMFromOperands", 0))+specLenIf(vcCalled("DisplacementBytes"), vcResult[[]byte]("DisplacementBytes", 0))
+//@ ensures[layout.len.imm@C01+C03] result0 != nil && vcResult[*asmdb.Encoding]("FindEncoding", 0).Immediate != nil ==> len(result0) == specB2I((vcResult[bool]("Require66h", 0) && !vcResult[bool]("IsControlRegisterOperation", 0)))+specB2I(vcResult[bool]("Require67h", 0))+len(vcResult[[]byte]("ResolveOpcode", 0))+specLenIf(vcCalled("getModRMFromOperands"), vcResult[[]byte]("getModRMFromOperands", 0))+specLenIf(vcCalled("DisplacementBytes"), vcResult[[]byte]("DisplacementBytes", 0))+vcResult[*asmdb.Encoding]("FindEncoding", 0).Immediate.Size
+//@ ensures[layout.prefix] result0 != nil ==> specPrefixOK(result0, (vcResult[bool]("Require66h", 0) && !vcResult[bool]("IsControlRegisterOperation", 0)), vcResult[bool]("Require67h", 0))
+//@ ensures[layout.opcode] result0 != nil ==> specPartAt(result0, specB2I((vcResult[bool]("Require66h", 0) && !vcResult[bool]("IsControlRegisterOperation", 0)))+specB2I(vcResult[bool]("Require67h", 0)), vcResult[[]byte]("ResolveOpcode", 0))
+//@ ensures[layout.modrm] result0 != nil && vcCalled("getModRMFromOperands") ==> specPartAt(result0, specB2I((vcResult[bool]("Require66h", 0) && !vcResult[bool]("IsControlRegisterOperation", 0)))+specB2I(vcResult[bool]("Require67h", 0))+len(vcResult[[]byte]("ResolveOpcode", 0)), vcResult[[]byte]("getModRMFromOperands", 0))
+//@ ensures[layout.moffs] result0 != nil && vcCalled("DisplacementBytes") ==> specPartAt(result0, specB2I((vcResult[bool]("Require66h", 0) && !vcResult[bool]("IsControlRegisterOperation", 0)))+specB2I(vcResult[bool]("Require67h", 0))+len(vcResult[[]byte]("ResolveOpcode", 0)), vcResult[[]byte]("DisplacementBytes", 0))
+//@ ensures[layout.imm] result0 != nil && vcCalled("getImmediateValue") ==> specPartAt(result0, len(result0)-len(vcResult[[]byte]("getImmediateValue", 0)), vcResult[[]byte]("getImmediateValue", 0))
+//@ ensures[layout.imm.label] result0 != nil && vcResult[*asmdb.Encoding]("FindEncoding", 0).Immediate != nil && specSymImm(ctx.SymTable, operands[specIndex(vcResult[*asmdb.Encoding]("FindEncoding", 0).Immediate.Value)]) ==> vcResult[*asmdb.Encoding]("FindEncoding", 0).Immediate.Size <= len(result0) && specLE(result0[len(result0)-vcResult[*asmdb.Encoding]("FindEncoding", 0).Immediate.Size:], ctx.SymTable[operands[specIndex(vcResult[*asmdb.Encoding]("FindEncoding", 0).Immediate.Value)]])
+//@ assigns OperandPegImpl.bitMode, OperandPegImpl.forceRelAsImm, OperandType[]
+
+// IMUL: the two-operand immediate form IMUL r, imm is 69 /r id (6B /r ib) with the register in both
+// ModR/M fields (SDM: "IMUL r32, imm32" is IMUL r32, r32, imm32); three-operand source forms are not
+// decided (the table lookup rejects them today).
+//@ func handleIMUL
+//@ props C01 C03
+//@ option no-panic-obligations unroll-appends
+//@ requires ctx != nil && (ctx.BitMode == cpu.MODE_16BIT || ctx.BitMode == cpu.MODE_32BIT)
+//@ calls[mode] (*ng_operand.OperandPegImpl).WithBitMode : arg1 == ctx.BitMode
+//@ calls[row] (*asmdb.InstructionDB).FindEncoding : arg1 == "IMUL"
+//@ calls[opcode] ResolveOpcode : arg0.Byte == vcResult[*asmdb.Encoding]("FindEncoding", 0).Opcode.Byte && arg0.Addend == vcResult[*asmdb.Encoding]("FindEncoding", 0).Opcode.Addend
+//@ calls[modrm] getModRMFromOperands : vcSame(arg0, params.Operands) && arg2 == ctx.BitMode && arg1 != nil && arg1.ModRM != nil && arg1.Opcode.Byte == vcResult[*asmdb.Encoding]("FindEncoding", 0).Opcode.Byte && arg1.ModRM.Mode == vcResult[*asmdb.Encoding]("FindEncoding", 0).ModRM.Mode && ((vcResult[*asmdb.Encoding]("FindEncoding", 0).Opcode.Byte == "69" || vcResult[*asmdb.Encoding]("FindEncoding", 0).Opcode.Byte == "6B") && len(params.Operands) == 2 ==> arg1.ModRM.Reg == "#0" && arg1.ModRM.Rm == "#0") && (vcResult[*asmdb.Encoding]("FindEncoding", 0).Opcode.Byte != "69" && vcResult[*asmdb.Encoding]("FindEncoding", 0).Opcode.Byte != "6B" ==> arg1.ModRM.Reg == vcResult[*asmdb.Encoding]("FindEncoding", 0).ModRM.Reg && arg1.ModRM.Rm == vcResult[*asmdb.Encoding]("FindEncoding", 0).ModRM.Rm)
+//@ calls[imm] getImmediateValue : arg1 == vcResult[*asmdb.Encoding]("FindEncoding", 0).Immediate.Size && arg0 == params.Operands[specIndex(vcResult[*asmdb.Encoding]("FindEncoding", 0).Immediate.Value)]
+//@ calls[plusr] ResolveOpcode : vcResult[*asmdb.Encoding]("FindEncoding", 0).Opcode.Addend != nil && vcCalled("GetRegisterNumber") && vcResult[error]("GetRegisterNumber", 1) == nil ==> arg1 == vcResult[int]("GetRegisterNumber", 0) && vcArg[string]("GetRegisterNumber", 0) == params.Operands[specAtoi(strings.TrimPrefix(*vcResult[*asmdb.Encoding]("FindEncoding", 0).Opcode.Addend, "#"))]
+//@ ensures[parts.modrm] result1 == nil ==> vcCalled("getModRMFromOperands") == (vcResult[*asmdb.Encoding]("FindEncoding", 0).ModRM != nil)
+//@ ensures[parts.imm] result1 == nil ==> vcCalled("getImmediateValue") == (vcResult[*asmdb.Encoding]("FindEncoding", 0).Immediate != nil)
+//@ ensures[layout.len@C01+C03] result1 == nil ==> len(result0) == specB2I(vcResult[bool]("Require66h", 0))+specB2I(vcResult[bool]("Require67h", 0))+len(vcResult[[]byte]("ResolveOpcode", 0))+specLenIf(vcCalled("getModRMFromOperands"), vcResult[[]byte]("getModRMFromOperands", 0))+specLenIf(vcCalled("getImmediateValue"), vcResult[[]byte]("getImmediateValue", 0))
+//@ ensures[layout.prefix] result1 == nil ==> specPrefixOK(result0, vcResult[bool]("Require66h", 0), vcResult[bool]("Require67h", 0))
+//@ ensures[layout.opcode] result1 == nil ==> specPartAt(result0, specB2I(vcResult[bool]("Require66h", 0))+specB2I(vcResult[bool]("Require67h", 0)), vcResult[[]byte]("ResolveOpcode", 0))
+//@ ensures[layout.modrm] result1 == nil && vcCalled("getModRMFromOperands") ==> specPartAt(result0, specB2I(vcResult[bool]("Require66h", 0))+specB2I(vcResult[bool]("Require67h", 0))+len(vcResult[[]byte]("ResolveOpcode", 0)), vcResult[[]byte]("getModRMFromOperands", 0))
+//@ ensures[layout.imm] result1 == nil && vcCalled("getImmediateValue") ==> specPartAt(result0, len(result0)-len(vcResult[[]byte]("getImmediateValue", 0)), vcResult[[]byte]("getImmediateValue", 0))
+//@ assigns OperandPegImpl.bitMode, OperandType[]
+
+//@ func handleNOT
+//@ props C01 C03
+//@ option no-panic-obligations unroll-appends
+//@ requires ctx != nil && (ctx.BitMode == cpu.MODE_16BIT || ctx.BitMode == cpu.MODE_32BIT)
+//@ calls[mode] (*ng_operand.OperandPegImpl).WithBitMode : arg1 == ctx.BitMode
+//@ calls[row] (*asmdb.InstructionDB).FindEncoding : arg1 == "NOT" && arg3
+//@ calls[opcode] ResolveOpcode : arg0.Byte == vcResult[*asmdb.Encoding]("FindEncoding", 0).Opcode.Byte && arg0.Addend == vcResult[*asmdb.Encoding]("FindEncoding", 0).Opcode.Addend
+//@ calls[modrm] getModRMFromOperands : vcSame(arg0, params.Operands) && arg1 == vcResult[*asmdb.Encoding]("FindEncoding", 0) && arg2 == ctx.BitMode
+//@ ensures[parts.modrm] result1 == nil ==> vcCalled("getModRMFromOperands") == (vcResult[*asmdb.Encoding]("FindEncoding", 0).ModRM != nil)
+//@ ensures[layout.len@C01+C03] result1 == nil ==> len(result0) == specB2I(vcResult[bool]("Require66h", 0))+specB2I(vcResult[bool]("Require67h", 0))+len(vcResult[[]byte]("ResolveOpcode", 0))+specLenIf(vcCalled("getModRMFromOperands"), vcResult[[]byte]("getModRMFromOperands", 0))
+//@ ensures[layout.prefix] result1 == nil ==> specPrefixOK(result0, vcResult[bool]("Require66h", 0), vcResult[bool]("Require67h", 0))
+//@ ensures[layout.opcode] result1 == nil ==> specPartAt(result0, specB2I(vcResult[bool]("Require66h", 0))+specB2I(vcResult[bool]("Require67h", 0)), vcResult[[]byte]("ResolveOpcode", 0))
+//@ ensures[layout.modrm] result1 == nil && vcCalled("getModRMFromOperands") ==> specPartAt(result0, specB2I(vcResult[bool]("Require66h", 0))+specB2I(vcResult[bool]("Require67h", 0))+len(vcResult[[]byte]("ResolveOpcode", 0)), vcResult[[]byte]("getModRMFromOperands", 0))
+//@ assigns OperandPegImpl.bitMode, OperandType[]
+
+// ---------------------------------------------------------------------------
+// PUSH / POP (SDM Vol. 2): hand-written encoders. PUSH r16/r32 = 50+r, POP = 58+r; segment
+// registers ES/CS/SS/DS = 06/0E/16/1E (POP 07/-/17/1F), FS/GS = 0F A0/0F A8 (POP 0F A1/0F A9);
+// memory operand FF /6 (POP 8F /0); PUSH imm = 6A ib when the value is a sign-extended byte, else
+// 68 iw / 68 id with the operand size of the mode. Prefixes first, as the operand rules decide.
+// ---------------------------------------------------------------------------
+
+func specIsImmCode(t ng_operand.OperandType) bool {
+	return t == ng_operand.CodeIMM || t == ng_operand.CodeIMM8 || t == ng_operand.CodeIMM16 || t == ng_operand.CodeIMM32 || t == ng_operand.CodeIMM64
+}
+
+func specIsMemCode(t ng_operand.OperandType) bool {
+	return t == ng_operand.CodeMEM || t == ng_operand.CodeM || t == ng_operand.CodeM8 || t == ng_operand.CodeM16 || t == ng_operand.CodeM32 || t == ng_operand.CodeM64
+}
+
+// specPushImmVal: the value PUSH imm pushes: the literal, or the address of the label.
+func specPushImmVal(tab map[string]int32, op string) int64 {
+	if specParseAnyOK(op) {
+		return specParseAny(op)
+	}
+	return int64(tab[op])
+}
+
+func specPushImmOK(tab map[string]int32, op string) bool {
+	if specParseAnyOK(op) {
+		return true
+	}
+	_, ok := tab[op]
+	return ok
+}
+
+// specSregPushPop: opcode bytes of PUSH (pop=false) / POP (pop=true) of a segment register, packed
+// n<<16 | b0<<8 | b1; -1 when there is none (POP CS, other names).
+func specSregPushPop(r string, pop bool) int {
+	d := 0
+	if pop {
+		d = 1
+	}
+	switch r {
+	case "ES":
+		return 1<<16 | (0x06+d)<<8
+	case "CS":
+		if pop {
+			return -1
+		}
+		return 1<<16 | 0x0E<<8
+	case "SS":
+		return 1<<16 | (0x16+d)<<8
+	case "DS":
+		return 1<<16 | (0x1E+d)<<8
+	case "FS":
+		return 2<<16 | 0x0F<<8 | (0xA0 + d)
+	case "GS":
+		return 2<<16 | 0x0F<<8 | (0xA8 + d)
+	}
+	return -1
+}
+
+// specSregBytesAt: out carries exactly the packed opcode enc from offset off to its end.
+func specSregBytesAt(out []byte, off int, enc int) bool {
+	if enc < 0 || len(out) != off+enc>>16 {
+		return false
+	}
+	return out[off] == byte(enc>>8) && (enc>>16 < 2 || out[off+1] == byte(enc))
+}
+
+//@ func handlePUSH
+//@ props C01 C03
+//@ option no-panic-obligations unroll-appends
+//@ requires ctx != nil && (ctx.BitMode == cpu.MODE_16BIT || ctx.BitMode == cpu.MODE_32BIT)
+//@ calls[mode] (*ng_operand.OperandPegImpl).WithBitMode : arg1 == ctx.BitMode
+//@ calls[ext] calculateModRM : arg1 == ctx.BitMode && arg2 == 6<<3
+//@ ensures[prefix] result1 == nil ==> specPrefixOK(result0, vcResult[bool]("Require66h", 0), vcResult[bool]("Require67h", 0))
+//@ ensures[reg] result1 == nil && vcCalled("registerToPushPopCode") && (specReg16(params.Operands[0]) >= 0 || specReg32(params.Operands[0]) >= 0) ==> len(result0) == specB2I(vcResult[bool]("Require66h", 0))+specB2I(vcResult[bool]("Require67h", 0))+1 && result0[specB2I(vcResult[bool]("Require66h", 0))+specB2I(vcResult[bool]("Require67h", 0))] == 0x50+byte(specRegNum(params.Operands[0]))
+//@ ensures[sreg] result1 == nil && vcCalled("registerToPushPopCode") && specSreg(params.Operands[0]) >= 0 ==> specSregBytesAt(result0, specB2I(vcResult[bool]("Require66h", 0))+specB2I(vcResult[bool]("Require67h", 0)), specSregPushPop(params.Operands[0], false))
+//@ ensures[imm8] result1 == nil && specIsImmCode(vcResult[[]ng_operand.OperandType]("OperandTypes", 0)[0]) && specPushImmOK(ctx.SymTable, params.Operands[0]) && -128 <= specPushImmVal(ctx.SymTable, params.Operands[0]) && specPushImmVal(ctx.SymTable, params.Operands[0]) <= 127 ==> len(result0) == specB2I(vcResult[bool]("Require66h", 0))+specB2I(vcResult[bool]("Require67h", 0))+2 && result0[specB2I(vcResult[bool]("Require66h", 0))+specB2I(vcResult[bool]("Require67h", 0))] == 0x6A && result0[specB2I(vcResult[bool]("Require66h", 0))+specB2I(vcResult[bool]("Require67h", 0))+1] == byte(specPushImmVal(ctx.SymTable, params.Operands[0]))
+//@ ensures[imm16] result1 == nil && specIsImmCode(vcResult[[]ng_operand.OperandType]("OperandTypes", 0)[0]) && specPushImmOK(ctx.SymTable, params.Operands[0]) && !(-128 <= specPushImmVal(ctx.SymTable, params.Operands[0]) && specPushImmVal(ctx.SymTable, params.Operands[0]) <= 127) && ctx.BitMode == cpu.MODE_16BIT ==> len(result0) == specB2I(vcResult[bool]("Require66h", 0))+specB2I(vcResult[bool]("Require67h", 0))+3 && result0[specB2I(vcResult[bool]("Require66h", 0))+specB2I(vcResult[bool]("Require67h", 0))] == 0x68 && result0[specB2I(vcResult[bool]("Require66h", 0))+specB2I(vcResult[bool]("Require67h", 0))+1] == byte(specPushImmVal(ctx.SymTable, params.Operands[0])) && result0[specB2I(vcResult[bool]("Require66h", 0))+specB2I(vcResult[bool]("Require67h", 0))+2] == byte(specPushImmVal(ctx.SymTable, params.Operands[0])>>8)
+//@ ensures[imm32] result1 == nil && specIsImmCode(vcResult[[]ng_operand.OperandType]("OperandTypes", 0)[0]) && specPushImmOK(ctx.SymTable, params.Operands[0]) && !(-128 <= specPushImmVal(ctx.SymTable, params.Operands[0]) && specPushImmVal(ctx.SymTable, params.Operands[0]) <= 127) && ctx.BitMode == cpu.MODE_32BIT ==> len(result0) == specB2I(vcResult[bool]("Require66h", 0))+specB2I(vcResult[bool]("Require67h", 0))+5 && result0[specB2I(vcResult[bool]("Require66h", 0))+specB2I(vcResult[bool]("Require67h", 0))] == 0x68 && result0[specB2I(vcResult[bool]("Require66h", 0))+specB2I(vcResult[bool]("Require67h", 0))+1] == byte(specPushImmVal(ctx.SymTable, params.Operands[0])) && result0[specB2I(vcResult[bool]("Require66h", 0))+specB2I(vcResult[bool]("Require67h", 0))+2] == byte(specPushImmVal(ctx.SymTable, params.Operands[0])>>8) && result0[specB2I(vcResult[bool]("Require66h", 0))+specB2I(vcResult[bool]("Require67h", 0))+3] == byte(specPushImmVal(ctx.SymTable, params.Operands[0])>>16) && result0[specB2I(vcResult[bool]("Require66h", 0))+specB2I(vcResult[bool]("Require67h", 0))+4] == byte(specPushImmVal(ctx.SymTable, params.Operands[0])>>24)
+//@ ensures[imm.err] specIsImmCode(vcResult[[]ng_operand.OperandType]("OperandTypes", 0)[0]) && !specPushImmOK(ctx.SymTable, params.Operands[0]) ==> result1 != nil
+//@ ensures[mem] result1 == nil && specIsMemCode(vcResult[[]ng_operand.OperandType]("OperandTypes", 0)[0]) ==> vcCalled("calculateModRM") && (specAddrFormHandled(vcResult[*ng_operand.MemoryInfo]("GetMemoryInfo", 0), specMode(ctx.BitMode)) ==> len(result0) >= specB2I(vcResult[bool]("Require66h", 0))+specB2I(vcResult[bool]("Require67h", 0))+2 && result0[specB2I(vcResult[bool]("Require66h", 0))+specB2I(vcResult[bool]("Require67h", 0))] == 0xFF && specModRMLayout(result0[specB2I(vcResult[bool]("Require66h", 0))+specB2I(vcResult[bool]("Require67h", 0))+1:], vcResult[byte]("calculateModRM", 0), specHasSIB(specAddrSize(vcResult[*ng_operand.MemoryInfo]("GetMemoryInfo", 0), specMode(ctx.BitMode)), vcResult[byte]("calculateModRM", 0)), vcResult[byte]("calculateModRM", 1), vcResult[[]byte]("calculateModRM", 2)))
+//@ assigns OperandPegImpl.bitMode, OperandType[]
+
+//@ func handlePOP
+//@ props C01 C03
+//@ option no-panic-obligations unroll-appends
+//@ requires ctx != nil && (ctx.BitMode == cpu.MODE_16BIT || ctx.BitMode == cpu.MODE_32BIT)
+//@ calls[mode] (*ng_operand.OperandPegImpl).WithBitMode : arg1 == ctx.BitMode
+//@ calls[ext] calculateModRM : arg1 == ctx.BitMode && arg2 == 0
+//@ ensures[prefix] result1 == nil ==> specPrefixOK(result0, vcResult[bool]("Require66h", 0), vcResult[bool]("Require67h", 0))
+//@ ensures[reg] result1 == nil && vcCalled("registerToPushPopCode") && (specReg16(params.Operands[0]) >= 0 || specReg32(params.Operands[0]) >= 0) ==> len(result0) == specB2I(vcResult[bool]("Require66h", 0))+specB2I(vcResult[bool]("Require67h", 0))+1 && result0[specB2I(vcResult[bool]("Require66h", 0))+specB2I(vcResult[bool]("Require67h", 0))] == 0x58+byte(specRegNum(params.Operands[0]))
+//@ ensures[sreg] result1 == nil && vcCalled("registerToPushPopCode") && specSreg(params.Operands[0]) >= 0 ==> specSregBytesAt(result0, specB2I(vcResult[bool]("Require66h", 0))+specB2I(vcResult[bool]("Require67h", 0)), specSregPushPop(params.Operands[0], true))
+//@ ensures[imm] specIsImmCode(vcResult[[]ng_operand.OperandType]("OperandTypes", 0)[0]) ==> result1 != nil
+//@ ensures[mem] result1 == nil && specIsMemCode(vcResult[[]ng_operand.OperandType]("OperandTypes", 0)[0]) ==> vcCalled("calculateModRM") && (specAddrFormHandled(vcResult[*ng_operand.MemoryInfo]("GetMemoryInfo", 0), specMode(ctx.BitMode)) ==> len(result0) >= specB2I(vcResult[bool]("Require66h", 0))+specB2I(vcResult[bool]("Require67h", 0))+2 && result0[specB2I(vcResult[bool]("Require66h", 0))+specB2I(vcResult[bool]("Require67h", 0))] == 0x8F && specModRMLayout(result0[specB2I(vcResult[bool]("Require66h", 0))+specB2I(vcResult[bool]("Require67h", 0))+1:], vcResult[byte]("calculateModRM", 0), specHasSIB(specAddrSize(vcResult[*ng_operand.MemoryInfo]("GetMemoryInfo", 0), specMode(ctx.BitMode)), vcResult[byte]("calculateModRM", 0)), vcResult[byte]("calculateModRM", 1), vcResult[[]byte]("calculateModRM", 2)))
+//@ assigns OperandPegImpl.bitMode, OperandType[]
 
 // ---------------------------------------------------------------------------
 // Mnemonics without operands (C01): processOcode answers them from a byte table
